@@ -57,8 +57,9 @@ def use_repo():
     assert os.path.abspath(onl.__file__).startswith(REPO), (onl.__file__, REPO)
 
 
-class CaseTimeout(Exception):
-    pass
+class CaseTimeout(BaseException):
+    """raised by the per-case alarm; a BaseException so that `except Exception` in plugins or in the
+    implementation does not take it for an implementation error"""
 
 
 def _alarm(signum, frame):
@@ -434,7 +435,9 @@ def load_plugin(pid):
 
 def _impl_one(prop, case):
     signal.signal(signal.SIGALRM, _alarm)
-    signal.setitimer(signal.ITIMER_REAL, prop.case_timeout)
+    # the alarm repeats every second after the first expiry: the kernel under test turns an exception raised
+    # inside a process into a failed event, so one delivery can be swallowed by a looping implementation
+    signal.setitimer(signal.ITIMER_REAL, prop.case_timeout, 1.0)
     try:
         return prop.run_impl(case)
     except CaseTimeout:
@@ -452,7 +455,11 @@ def _worker_init(pid):
 
 
 def _worker(case):
-    return _impl_one(_PLUGIN, case)
+    try:
+        return _impl_one(_PLUGIN, case)
+    except CaseTimeout:  # a repeat of the alarm delivered while _impl_one was returning
+        signal.setitimer(signal.ITIMER_REAL, 0)
+        return {"harness_error": "timeout", "detail": "implementation run exceeded the case timeout"}
 
 
 def run_impl_many(prop, cases, procs=14):
@@ -475,16 +482,25 @@ def load_known():
         return json.load(fh).get("findings", [])
 
 
-def greedy_shrink(prop, case, still_fails, budget=400):
-    """generic greedy shrinking with the plugin's candidate generator"""
+SHRINK_TOTAL_SECONDS = 150   # all shrinks of one check together
+_SHRINK_SPENT = 0.0
+SHRINK_SECONDS = 45          # wall-clock budget of one shrink (slow or hanging candidates must not stall a check)
+
+
+def greedy_shrink(prop, case, still_fails, budget=400, seconds=None):
+    """generic greedy shrinking with the plugin's candidate generator, bounded in candidates and in time"""
+    global _SHRINK_SPENT
     cur = case
     improved = True
     n = 0
-    while improved and n < budget:
+    left = max(0.0, SHRINK_TOTAL_SECONDS - _SHRINK_SPENT)
+    t_start = time.time()
+    deadline = t_start + min(SHRINK_SECONDS if seconds is None else seconds, left)
+    while improved and n < budget and time.time() < deadline:
         improved = False
         for cand in prop.shrink(cur):
             n += 1
-            if n >= budget:
+            if n >= budget or time.time() >= deadline:
                 break
             try:
                 if still_fails(cand):
@@ -493,6 +509,7 @@ def greedy_shrink(prop, case, still_fails, budget=400):
                     break
             except Exception:
                 continue
+    _SHRINK_SPENT += time.time() - t_start
     return cur
 
 
